@@ -191,6 +191,8 @@ def gen_program(rng, *, npos=None, nmeth=(2, 7), dep=0.0, kinds=("leaf",), kw=0.
         if methods and rng.random() < repeat:
             m = dict(rng.choice(methods), mid=i)
             m["kind"] = rng.choice(kinds)
+            # the redefinition may add, change or drop a return annotation: it is the same signature all the same
+            m["ret"] = ["int", "str", None][i % 3]
         else:
             n = npos
             if rng.random() < other_arity:
